@@ -91,6 +91,8 @@ type Config struct {
 	// Attr: free identifiers (the top-level bindings) are attributes of one argument map
 	// (C16); nothing changes for generation, the caller renders both forms.
 	NoTokensInCallee bool
+	// ArgNames overrides the names of the top-level arguments (default x, y, z).
+	ArgNames []string
 }
 
 type Gen struct {
@@ -768,6 +770,9 @@ type Program struct {
 func (g *Gen) GenProgram() Program {
 	k := 1 + g.n(3, "nargs")
 	names := []string{"x", "y", "z"}[:k]
+	if len(g.C.ArgNames) >= k {
+		names = g.C.ArgNames[:k]
+	}
 	sc := &Scope{Frame: map[string]bool{}}
 	var tys []Ty
 	for i := 0; i < k; i++ {
